@@ -139,7 +139,10 @@ def one(rep, rng, j, fixed=None):
         alt = importlib.import_module('vlab.tasks_alt')
         lists += [[core.VA, core.VAX], [core.VAX, core.VA], [alt.VA, core.VA], [core.VJ, core.VA], [core.VA, core.VA]]
         pre_events = len(events.read_events(ctl))
-        lab2 = labtech.Lab(storage=make_storage(skind, store), runner_backend='serial')
+        lab2_backend = (fixed.get('backend2', 'serial') if fixed is not None else
+                        rng.choice(['serial'] * 26 + ['fork'] * 3 + ['spawn']))
+        wit['backend2'] = lab2_backend
+        lab2 = labtech.Lab(storage=make_storage(skind, store), runner_backend=lab2_backend, max_workers=2)
         for tl in lists:
             rep.count('cached_tasks_calls')
             try:
@@ -176,7 +179,7 @@ def one(rep, rng, j, fixed=None):
                                       f'{g!r} of type {type(g).__module__}.{type(g).__qualname__}', wit)
                     elif not any(getattr(g, 'cache_key', None) == t.cache_key for t in want):
                         rep.violation('uncached-task-returned', f'cached_tasks returned {g!r} which was never cached', wit)
-            if tl is lists[len(allT)] or len(tl) == 1:
+            if tl is lists[len(allT)] or (len(tl) == 1 and lab2_backend == 'serial'):
                 # running the returned tasks must load, not execute
                 ok_got = [g for g in got if any(type(g) is type(t) and g == t for t in want)]
                 for batch in ([[g] for g in ok_got] if separate else [ok_got]):
@@ -192,14 +195,74 @@ def one(rep, rng, j, fixed=None):
                             v = res2.get(g)
                             if v is None or tuple(v) != values.get(tk(g)):
                                 rep.violation('reload-wrong-value', f'{g!r} loaded {v}, stored {values.get(tk(g))}', wit)
+        if lab2_backend != 'serial':
+            engine.reap_children()
         execs = [e for e in events.read_events(ctl)[pre_events:] if e['k'] == 'vstart']
         if execs:
             rep.violation('reload-executed', f'running the returned tasks executed {len(execs)} task(s) again', wit)
+        if not separate and not marker_tasks and (fixed.get('phase2') if fixed is not None else (lab2_backend != 'serial' or rng.random() < 0.1)):
+            phase2(rep, rng, lab2_backend, lab2, descs, allT, wit, tk)
         if len(rep.samples) < 2 and has_nested_coll:
             rep.sample({'storage': skind, 'tasks': [repr(t)[:200] for t in tops[:3]], 'cached_universe': len(universe)})
     finally:
         import shutil
         shutil.rmtree(ctl, ignore_errors=True)
+
+
+def phase2(rep, rng, backend, lab, descs, allT, wit, tk):
+    """The entries are replaced (bust_cache, executed by `backend` - in worker processes for fork/spawn) through
+    the very Lab that has just listed them; the next listing must show the result_meta that is stored NOW, and
+    entries removed afterwards must disappear from it."""
+    from vlab import engine
+    from vlab.body import walk_deps
+    from vlab.props.c07 import build
+    wit = dict(wit, phase2=True)
+    tops = [build(*d) for d in descs]
+    try:
+        lab.run_tasks(tops, bust_cache=True, disable_progress=True, disable_top=True)
+    except BaseException as ex:   # noqa
+        rep.violation(f'rerun-raised:{type(ex).__name__}', f'run_tasks(bust_cache=True) raised {ex}', wit)
+        return
+    finally:
+        if backend != 'serial':
+            engine.reap_children()
+    new_meta = {}
+    stack, seen_ids = list(tops), set()
+    while stack:
+        x = stack.pop()
+        if id(x) in seen_ids:
+            continue
+        seen_ids.add(id(x))
+        if x.result_meta is not None:
+            new_meta.setdefault(tk(x), x.result_meta)
+        stack.extend(walk_deps(x))
+    universe = all_tasks(tops)
+    rep.count('phase2_cases')
+    rep.seen('phase2_backends', backend)
+
+    def listing(after, expect):
+        got = list(lab.cached_tasks(allT))
+        for t in universe:
+            matches = [g for g in got if type(g) is type(t) and g == t]
+            want_n = 1 if tk(t) in expect else 0
+            if len(matches) != want_n:
+                rep.violation('cached-task-missing' if len(matches) < want_n else
+                              ('returned-twice' if want_n else 'uncached-task-returned'),
+                              f'{after}: {t!r} matched by {len(matches)} returned tasks, expected {want_n}'[:600], wit)
+                continue
+            if not want_n:
+                continue
+            rep.count('phase2_reconstructions_checked')
+            g = matches[0]
+            if g.result_meta != expect[tk(t)] or g.result_meta is None:
+                rep.violation('reconstructed-meta-stale', f'{after} ({backend}): {g!r} is listed with result_meta '
+                              f'{g.result_meta}, the entry now stored was written by the execution {expect[tk(t)]}'[:700], wit)
+    listing('after replacing every entry with bust_cache', new_meta)
+    drop = [t for t in universe if rng.random() < 0.4]
+    if drop:
+        lab.uncache_tasks(drop)
+        gone = {tk(t) for t in drop}
+        listing(f'after uncache_tasks of {len(drop)} task(s)', {k: v for k, v in new_meta.items() if k not in gone})
 
 
 def run_shard(rep):
@@ -208,6 +271,7 @@ def run_shard(rep):
     rep.require('reconstructions_checked', 2000)
     rep.require('cases_with_nested_task_or_enum_in_collection', 100)
     rep.require('reloads_checked', 1000)
+    rep.require('phase2_reconstructions_checked', 200)
     for j in range(rep.shard, cfg['n'], rep.nshards):
         if rep.expired():
             rep.count('skipped_for_time')
